@@ -264,6 +264,27 @@ class PointIO(object):
         co = E.BASIC if rep == "B" else (E.PROJC if rep in ("P", "P1") else E.EXTND)
         E.put(ptr, X, Y, z, T, co)
 
+    def stale(self, ptr, n=1):
+        """pre-fill n separate output objects with the stale state chosen for this case (C16.Case)"""
+        E, R, cv = self.E, self.R, self.cv
+        kind = getattr(self.ctx, "stale_kind", "poison")
+        E.fill(ptr, R.poison, n)
+        if kind == "poison":
+            return
+        for i in range(n):
+            q = ptr + i * E.sz
+            if kind == "affine":
+                self.put(q, cv.G, "B")
+            elif kind == "projective":
+                self.put(q, cv.G, "P")
+            elif kind == "alt":
+                self.put(q, cv.G, "E")
+            elif kind == "identity":
+                E.put(q, 0, 1, 1, 0, E.PROJC)           # as ed_set_infty leaves it
+            else:
+                z = self.rng.randrange(2, cv.p)
+                E.put(q, 0, z, z, 0, self.rng.choice([E.PROJC, E.EXTND]))
+
     def get(self, ptr):
         """-> (affine point or tag, coord, ok, raw)"""
         X, Y, Z, T, co, canon = self.E.get(ptr)
@@ -400,7 +421,7 @@ class LawPart(PointIO):
             if go:
                 P = cv.aff(d)
                 self.put(self.p_, P, rep)
-                E.fill(self.r_, R.poison)
+                self.stale(self.r_)
                 out = self.p_ if alias else self.r_
                 if self.no_error(R.call(fn, out, self.p_)):
                     self.expect(out, cv.C.neg(P), impl=impl)
@@ -426,7 +447,7 @@ class LawPart(PointIO):
             if go:
                 self.put(self.p_, P, rp)
                 self.put(self.q_, Q, rq)
-                E.fill(self.r_, R.poison)
+                self.stale(self.r_)
                 pq = self.p_ if alias == 3 else self.q_
                 out = {1: self.p_, 2: self.q_}.get(alias, self.r_)
                 rawp, rawq = E.raw(self.p_), E.raw(self.q_)
@@ -452,7 +473,7 @@ class LawPart(PointIO):
             if go:
                 P = cv.aff(d)
                 self.put(self.p_, P, rep)
-                E.fill(self.r_, R.poison)
+                self.stale(self.r_)
                 out = self.p_ if alias else self.r_
                 if self.no_error(R.call(fn, out, self.p_)):
                     self.expect(out, cv.C.dbl(P), extended=(native == "E"), impl=impl)
@@ -467,7 +488,7 @@ class LawPart(PointIO):
             if go:
                 P = cv.aff(d)
                 self.put(self.p_, P, rep)
-                E.fill(self.r_, R.poison)
+                self.stale(self.r_)
                 out = self.p_ if alias else self.r_
                 if self.no_error(R.call("ed_norm", out, self.p_)):
                     self.expect(out, P, affine=True)
@@ -492,7 +513,7 @@ class LawPart(PointIO):
                     for i in range(n):
                         self.put(t + i * E.sz, cv.aff(ds[i]), reps[i])
                     if not alias:
-                        E.fill(r, R.poison, n)
+                        self.stale(r, n)
                         if stale:
                             for i in range(n):
                                 self.put(r + i * E.sz, cv.G, "B")
@@ -556,7 +577,7 @@ class LawPart(PointIO):
             with Case(ctx, "ed_pck+ed_upk|%s,%s|alias%d" % (cv.pcls(d), xc, alias), {"P": dshow(d)}) as go:
                 if go:
                     self.put(self.p_, P, "B")
-                    E.fill(self.q_, R.poison)
+                    self.stale(self.q_)
                     out = self.p_ if alias else self.q_
                     if not self.no_error(R.call("ed_pck", out, self.p_)):
                         return
@@ -565,7 +586,7 @@ class LawPart(PointIO):
                     xr = R.fp_raw(out + E.ox)
                     Y = R.fp_get(out + E.oy)[0]
                     ctx.check(xr in (0, 1) and Y == P[1], ctx.cur_key + "|packed-value", {"x_raw": hx(xr), "y": hx(Y)})
-                    E.fill(self.r_, R.poison)
+                    self.stale(self.r_)
                     out2 = out if alias else self.r_
                     res = R.call("ed_upk", out2, out)
                     if self.no_error(res):
@@ -600,7 +621,7 @@ class LawPart(PointIO):
                             expb = b"\x04" + P[1].to_bytes(fb, "big") + P[0].to_bytes(fb, "big")
                         ctx.check(bs == expb and (not pack or P == cv.C.O or bs[0] in (2, 3)), ctx.cur_key + "|bytes",
                                   {"got": bs.hex(), "exp": expb.hex()})
-                        E.fill(self.r_, R.poison)
+                        self.stale(self.r_)
                         if self.no_error(R.call("ed_read_bin", self.r_, buf, ln)):
                             self.expect(self.r_, P)
                     finally:
@@ -617,8 +638,8 @@ class LawPart(PointIO):
                 mb = R.put(msg)
                 dst = R.put(b"RELIC")
                 try:
-                    E.fill(self.r_, R.poison)
-                    E.fill(self.q_, R.poison)
+                    self.stale(self.r_)
+                    self.stale(self.q_)
                     if not self.no_error(R.call("ed_map", self.r_, mb, ln)):
                         return
                     got, co, ok, raw = self.get(self.r_)
@@ -639,7 +660,7 @@ class LawPart(PointIO):
                 if go:
                     mb, db = R.put(msg), R.put(dstb)
                     try:
-                        E.fill(self.r_, R.poison)
+                        self.stale(self.r_)
                         res = R.call("ed_map_dst", self.r_, mb, ln, db, dl)
                         if res.caught:
                             return      # a refused tag is not a wrong point
@@ -666,7 +687,7 @@ class LawPart(PointIO):
         elif c == 1:
             with Case(ctx, "ed_set_infty|", {}) as go:
                 if go:
-                    E.fill(self.r_, R.poison)
+                    self.stale(self.r_)
                     if self.no_error(R.call("ed_set_infty", self.r_)):
                         self.expect(self.r_, cv.C.O)
         elif c == 2:
@@ -674,7 +695,7 @@ class LawPart(PointIO):
             with Case(ctx, "ed_copy|%s|%s" % (cv.pcls(d), rep), {"P": dshow(d)}) as go:
                 if go:
                     self.put(self.p_, P, rep)
-                    E.fill(self.r_, R.poison)
+                    self.stale(self.r_)
                     if self.no_error(R.call("ed_copy", self.r_, self.p_)):
                         a, b = E.get(self.r_), E.get(self.p_)
                         ctx.check(a[:3] == b[:3] and a[4] == b[4] and (not self.ext or a[3] == b[3]),
@@ -683,7 +704,7 @@ class LawPart(PointIO):
             if rng.random() < 0.15:
                 with Case(ctx, "ed_rand|", {}, nontrivial=False) as go:
                     if go:
-                        E.fill(self.r_, R.poison)
+                        self.stale(self.r_)
                         if self.no_error(R.call("ed_rand", self.r_)):
                             got, co, ok, raw = self.get(self.r_)
                             ctx.check(ok and cv.C.on_curve(got) and cv.C.mul(cv.n, got) == cv.C.O, ctx.cur_key + "|value",
@@ -693,7 +714,7 @@ class LawPart(PointIO):
             with Case(ctx, "ed_blind|%s|%s" % (cv.pcls(d), self.repcls(rep)), {"P": dshow(d)}) as go:
                 if go:
                     self.put(self.p_, P, rep)
-                    E.fill(self.r_, R.poison)
+                    self.stale(self.r_)
                     if self.no_error(R.call("ed_blind", self.r_, self.p_)):
                         self.expect(self.r_, P)
         elif c == 5:
@@ -716,7 +737,7 @@ class LawPart(PointIO):
                 if go:
                     t = E.new(n)
                     try:
-                        E.fill(t, R.poison, n)
+                        self.stale(t, n)
                         self.put(self.p_, P, rep)
                         if self.no_error(R.call("ed_tab", t, self.p_, w)):
                             for i in range(n):
@@ -876,16 +897,16 @@ class MulPart(PointIO):
                       None if good else {"got": pshow(got), "exp": pshow(want), "operand": pshow(exp),
                                          "operand_raw": [hx(v) for v in E.get(res)[:4]]})
         self.put(self.w_, W, self.rng.choice(["B", "P", "E"] if self.ext else ["B", "P"]))
-        E.fill(self.t2_, R.poison)
+        self.stale(self.t2_)
         if step("add", "ed_add", self.t2_, res, self.w_):
             point("add", C.add(exp, W))
-        E.fill(self.t2_, R.poison)
+        self.stale(self.t2_)
         if step("add-rev", "ed_add", self.t2_, self.w_, res):
             point("add-rev", C.add(W, exp))
-        E.fill(self.t2_, R.poison)
+        self.stale(self.t2_)
         if step("sub", "ed_sub", self.t2_, self.w_, res):
             point("sub", C.sub(W, exp))
-        E.fill(self.t2_, R.poison)
+        self.stale(self.t2_)
         if step("dbl", "ed_dbl", self.t2_, res):
             point("dbl", C.dbl(exp))
         # comparison with a fresh, correct encoding of the expected point and of another point
@@ -917,7 +938,7 @@ class MulPart(PointIO):
                   nontrivial=cv.pcls(d) != "inf" and k % cv.n != 0) as go:
             if go:
                 self.put(self.p_, cv.aff(d), "B")
-                E.fill(self.r_, R.poison)
+                self.stale(self.r_)
                 R.bn_put(self.k, k)
                 raw = E.raw(self.p_)
                 out = self.p_ if alias else self.r_
@@ -929,7 +950,7 @@ class MulPart(PointIO):
         ctx, R, E, cv = self.ctx, self.R, self.E, self.cv
         with Case(ctx, "ed_mul_gen|sub|%s" % cv.kcls(k), {"k": hx(k)}, nontrivial=k % cv.n != 0) as go:
             if go:
-                E.fill(self.r_, R.poison)
+                self.stale(self.r_)
                 R.bn_put(self.k, k)
                 res = R.call("ed_mul_gen", self.r_, self.k)
                 self.judge(res, self.r_, cv.aff(cv.dmul(k, (1, 0))), cv.in_range(k))
@@ -943,7 +964,7 @@ class MulPart(PointIO):
         with Case(ctx, key, {"P": dshow(d), "k": hx(k)}, nontrivial=cv.pcls(d) != "inf" and k != 0) as go:
             if go:
                 self.put(self.p_, cv.aff(d), "B")
-                E.fill(self.r_, R.poison)
+                self.stale(self.r_)
                 out = self.p_ if alias else self.r_
                 res = R.call("ed_mul_dig", out, self.p_, k)
                 self.judge(res, out, cv.aff(cv.dmul(k, d)), True)
@@ -965,7 +986,7 @@ class MulPart(PointIO):
     def fix_table(self, pre, size, d):
         ctx, R, E, cv = self.ctx, self.R, self.E, self.cv
         tab = E.new(size)
-        E.fill(tab, R.poison, size)
+        self.stale(tab, size)
         ok = False
         with Case(ctx, "%s|%s" % (impl_of(R, pre), cv.pcls(d)), {"P": dshow(d)}, nontrivial=cv.pcls(d) != "inf",
                   budget=600, setup=True) as go:
@@ -989,7 +1010,7 @@ class MulPart(PointIO):
         with Case(ctx, key, {"P": dshow(d), "k": hx(k), "via": fix},
                   nontrivial=cv.pcls(d) != "inf" and k % cv.n != 0) as go:
             if go:
-                E.fill(self.r_, R.poison)
+                self.stale(self.r_)
                 R.bn_put(self.k, k)
                 res = R.call(fix, self.r_, tab, self.k)
                 self.judge(res, self.r_, cv.aff(cv.dmul(k, d)), cv.in_range(k))
@@ -1031,7 +1052,7 @@ class MulPart(PointIO):
             if go:
                 self.put(self.p_, cv.aff(d), "B")
                 self.put(self.q_, cv.aff(e), "B")
-                E.fill(self.r_, R.poison)
+                self.stale(self.r_)
                 R.bn_put(self.k, k)
                 R.bn_put(self.m, m)
                 out = {1: self.p_, 2: self.q_}.get(alias, self.r_)
@@ -1061,7 +1082,7 @@ class MulPart(PointIO):
                         if r.caught:
                             raise RuntimeError("bn_make failed")
                         R.bn_put(bns + i * bsz, ks[i])
-                    E.fill(self.r_, R.poison)
+                    self.stale(self.r_)
                     res = R.call("ed_mul_sim_lot", self.r_, pts, bns, n)
                     acc = (0, 0)
                     for d, k in zip(ds, ks):
